@@ -2,6 +2,8 @@ package main
 
 import (
 	"context"
+	"crypto/sha512"
+	"encoding/hex"
 	"fmt"
 	"io"
 	"net/http"
@@ -128,6 +130,9 @@ func (*c01b) Gen(rng *RNG, tier string) []Case {
 		}
 		size := int64(len(content))
 		dg := sha256Digest(content)
+		if rng.Chance(1, 4) {
+			dg = otherDigest(rng, content) // sha384 / sha512: the reader must hash with the descriptor's own algorithm
+		}
 		body := append([]byte{}, content...)
 		switch rng.Intn(8) {
 		case 0: // flip a byte
@@ -146,7 +151,11 @@ func (*c01b) Gen(rng *RNG, tier string) []Case {
 				size = 0
 			}
 		case 4: // wrong declared digest
-			dg = sha256Digest(append([]byte("x"), content...))
+			if strings.HasPrefix(dg, "sha256:") {
+				dg = sha256Digest(append([]byte("x"), content...))
+			} else {
+				dg = otherDigest(rng, append([]byte("x"), content...))
+			}
 		}
 		line := fmt.Sprintf("rd %d %d %s", rng.Intn(4)/3^1, size, tok(dg))
 		if rng.Chance(1, 4) {
@@ -177,7 +186,7 @@ func (*c01b) Oracle(c Case, impl []string) []Failure {
 			s, _ := untok(ct)
 			body = append(body, s...)
 		}
-		matches := int64(len(body)) == size && sha256Digest(body) == dg
+		matches := int64(len(body)) == size && digestWithAlgOf(dg, body) == dg
 		fail := func(class, exp string) {
 			fs = append(fs, Failure{Class: class, Oracle: "mismatch_never_clean", Index: i, Expected: exp, Observed: got})
 		}
@@ -202,6 +211,27 @@ func (*c01b) Oracle(c Case, impl []string) []Failure {
 		}
 	}
 	return fs
+}
+
+func otherDigest(rng *RNG, data []byte) string {
+	if rng.Bool() {
+		h := sha512.Sum384(data)
+		return "sha384:" + hex.EncodeToString(h[:])
+	}
+	h := sha512.Sum512(data)
+	return "sha512:" + hex.EncodeToString(h[:])
+}
+
+func digestWithAlgOf(dg string, data []byte) string {
+	switch {
+	case strings.HasPrefix(dg, "sha384:"):
+		h := sha512.Sum384(data)
+		return "sha384:" + hex.EncodeToString(h[:])
+	case strings.HasPrefix(dg, "sha512:"):
+		h := sha512.Sum512(data)
+		return "sha512:" + hex.EncodeToString(h[:])
+	}
+	return sha256Digest(data)
 }
 
 func (*c01b) NonTrivial(c Case, impl []string) (bool, string) {
